@@ -358,5 +358,79 @@ pub fn find_vertices(tracks: Vec<Track>) -> VertexingResult {
     )
 }
 
+// Verification hooks (only compiled with `--cfg alpha_g_verif`).
+// Helix parameters are [x0, y0, z0, r, phi0, h] in meters and radians.
+#[cfg(alpha_g_verif)]
+fn verif_helix(p: [f64; 6]) -> Helix {
+    Helix {
+        x0: Length::new::<meter>(p[0]),
+        y0: Length::new::<meter>(p[1]),
+        z0: Length::new::<meter>(p[2]),
+        r: Length::new::<meter>(p[3]),
+        phi0: Angle::new::<radian>(p[4]),
+        h: Length::new::<meter>(p[5]),
+    }
+}
+#[cfg(alpha_g_verif)]
+pub fn verif_helix_closest_t(
+    p: [f64; 6],
+    point: SpacePoint,
+    tolerance: f64,
+    max_num_iter: usize,
+) -> f64 {
+    verif_helix(p).closest_t(point, tolerance, max_num_iter)
+}
+#[cfg(alpha_g_verif)]
+pub fn verif_helix_at(p: [f64; 6], t: f64) -> Coordinate {
+    verif_helix(p).at(t)
+}
+#[cfg(alpha_g_verif)]
+pub fn verif_helix_closest_to_beamline(p: [f64; 6]) -> Coordinate {
+    verif_helix(p).closest_to_beamline()
+}
+#[cfg(alpha_g_verif)]
+pub fn verif_helix_arc_length(p: [f64; 6], t1: f64, t2: f64) -> Length {
+    verif_helix(p).arc_length(t1, t2)
+}
+#[cfg(alpha_g_verif)]
+impl Track {
+    pub fn verif_from_params(p: [f64; 6], t_inner: f64, t_outer: f64) -> Track {
+        Track {
+            helix: verif_helix(p),
+            t_inner,
+            t_outer,
+        }
+    }
+    pub fn verif_params(&self) -> [f64; 6] {
+        let h = self.helix;
+        [
+            h.x0.get::<meter>(),
+            h.y0.get::<meter>(),
+            h.z0.get::<meter>(),
+            h.r.get::<meter>(),
+            h.phi0.get::<radian>(),
+            h.h.get::<meter>(),
+        ]
+    }
+}
+#[cfg(alpha_g_verif)]
+impl Cluster {
+    pub fn verif_from_points(points: Vec<SpacePoint>) -> Cluster {
+        Cluster(points)
+    }
+}
+#[cfg(alpha_g_verif)]
+pub fn verif_hough_bins(point: SpacePoint, rho_bins: u32, theta_bins: u32) -> Vec<(u32, u32)> {
+    track_finding::verif_hough_bins(point, rho_bins, theta_bins)
+}
+#[cfg(alpha_g_verif)]
+pub fn verif_largest_cluster(points: Vec<SpacePoint>, max_distance: Length) -> Vec<SpacePoint> {
+    track_finding::verif_largest_cluster(points, max_distance)
+}
+#[cfg(alpha_g_verif)]
+pub fn verif_beamline_clusters(tracks: Vec<Track>, max_distance: Length) -> Vec<(Vec<Track>, Length)> {
+    vertex_fitting::verif_beamline_clusters(tracks, max_distance)
+}
+
 #[cfg(test)]
 mod tests;
